@@ -58,6 +58,7 @@ def case_gen(draw, files=True):
         case['pad'] = draw(st.sampled_from([0, 7, 301, 301]))
         case['open_obj'] = draw(st.sampled_from([None, None, 'plain', 'short']))
         case['twin'] = draw(st.integers(0, 3)) == 0
+        case['rewrite'] = draw(st.integers(0, 3)) == 0
         case['encoding'] = draw(st.sampled_from(['utf-8', 'utf-8', 'utf-16', 'utf-32']))
         case['bigitem'] = draw(st.sampled_from([0, 0, 0, 66000, 140000]))
     return case
@@ -153,7 +154,7 @@ def check_files(case):
             self.k += 1
             if n is None or n < 0:
                 return self.f.read()
-            return self.f.read(max(1, min(n, [7, 4096, n, 1000, 65535][self.k % 5])))
+            return self.f.read(max(1, min(n, [7, 4096, n, 1000, 65535, 1][self.k % 6])))
 
         def write(self, b):
             return self.f.write(b)
@@ -175,6 +176,11 @@ def check_files(case):
     try:
         f = os.path.join(d, 'x.json')
         kw = {'open_obj': my_open} if case['open_obj'] else {}
+        if case.get('rewrite'):
+            # the path already holds an earlier, LONGER export written with the same settings: dump_to_file replaces it
+            old = [{'old': n, 'pad': 'x' * 50} for n in range(len(items) + 3)]
+            w0 = drive.collect(rx.from_(old).pipe(rjson.dump_to_file(f, compression=comp, encoding=enc)))
+            H.require_clean(w0, 'earlier dump_to_file to the same path', **ctx)
         if case.get('twin') and not case['open_obj']:
             # the same live source written to TWO files in one pass (two dump pipelines alive at once)
             from rx.subject import Subject
@@ -218,7 +224,7 @@ def check_files(case):
     finally:
         shutil.rmtree(d, ignore_errors=True)
     lab = labels_of(case['items'])
-    labels = lab + (['two-files-one-pass'] if case.get('twin') and not case['open_obj'] else []) + ['compression:%s' % comp, 'file>64K' if size > 65536 else 'file<=64K', 'open_obj:%s' % case['open_obj'], 'enc:' + enc]
+    labels = lab + (['path-rewritten'] if case.get('rewrite') else []) + (['two-files-one-pass'] if case.get('twin') and not case['open_obj'] else []) + ['compression:%s' % comp, 'file>64K' if size > 65536 else 'file<=64K', 'open_obj:%s' % case['open_obj'], 'enc:' + enc]
     if not items:
         labels.append('no-objects')
     return {'nontrivial': size > 65536 or bool(lab), 'labels': labels}
